@@ -31,6 +31,7 @@ DEFAULT_KNOBS = {
     'brace_newline': 0.15,   # probability that `{` goes on its own line
     'final_newline': 'random',
     'spaces': 'random',      # one | random  (multiple blanks between tokens)
+    'block_comments': True,  # may am comments be written as /* */
 }
 
 CANON = dict(DEFAULT_KNOBS, kwcase='orig', quote='all', strings="'", blank=0.0, indent='std',
@@ -50,12 +51,26 @@ class Writer:
         self.out = []            # output lines
         self.depth = 0
         self.case_sensitive = set(case_sensitive)
+        self.last_lit = None
 
     # ------------------------------------------------------------------ slots
     def slot(self, kind):
         i = len(self.slots)
         self.slots.append(kind)
         return self.inject.get(i)
+
+    def fault(self, kind):
+        """a place where a syntax fault of `kind` can be planted; returns the chosen variant or None"""
+        return self.slot('fault:' + kind)
+
+    def br(self, ch, where):
+        """structural bracket token; fault variants: drop / double"""
+        f = self.fault(f'tok:{ch}:{where}')
+        if f == 'drop':
+            return ''
+        if f == 'double':
+            return ch + ch
+        return ch
 
     def gap(self, where):
         """mid-line gap between two tokens: returns ' ' or ' <injected> '"""
@@ -110,6 +125,7 @@ class Writer:
             head = '\n' * self.rng.randint(1, 2)
             tail = '\n' + ' ' * self.rng.randint(0, 4)
             body = head + '\n'.join(lines) + tail
+        self.last_lit = (q, q + body + q)
         return q + body + q
 
     def indent(self):
@@ -141,6 +157,17 @@ class Writer:
         """`[a, b]` possibly laid out over several lines"""
         if not items:
             return ''
+        f = self.fault('settings:' + ctx)
+        if f == 'empty':
+            return '[]'
+        if f == 'unknown':
+            items = list(items)
+            items.insert(self.rng.randint(0, len(items)), 'zzzunknownsetting')
+        if f == 'tcomma':
+            items = list(items[:-1]) + [items[-1] + ',']
+        if f == 'dcomma':
+            items = [items[0] + ','] + list(items[1:]) if len(items) > 1 else [',' + items[0]]
+        lb, rb = self.br('[', ctx), None
         lay = self.k['settings_layout']
         if lay == 'random':
             lay = 'multi' if self.rng.random() < 0.3 else 'one'
@@ -150,11 +177,11 @@ class Writer:
                 if n:
                     parts.append(',' + self.gap('settings:' + ctx))
                 parts.append(it)
-            return '[' + ''.join(parts) + ']'
+            return lb + ''.join(parts) + self.br(']', ctx)
         # multi-line: slots for own-line and end-of-line inside the list
         lead_comma = self.rng.random() < 0.25
         lines = []
-        first = '['
+        first = lb
         inj = self.slot('eol:settings:' + ctx)
         if inj:
             first += ' ' + inj
@@ -169,14 +196,15 @@ class Writer:
                 txt = (', ' if n else '') + it
             else:
                 txt = it + ('' if last else ',')
-            inj = self.slot('eol:settings:' + ctx)
-            if inj and '\n' not in it:
-                txt += ' ' + inj
+            if '\n' not in it:
+                inj = self.slot('eol:settings:' + ctx)
+                if inj:
+                    txt += ' ' + inj
             lines.append(pad + txt)
         inj = self.slot('own:settings:' + ctx)
         if inj:
             lines.extend(pad + x for x in inj.split('\n'))
-        lines.append(pad[:-1] + ']')
+        lines.append(pad[:-1] + self.br(']', ctx))
         return '\n'.join(lines)
 
     def comment_lines(self, ctx, text):
@@ -186,7 +214,7 @@ class Writer:
         mode = self.k['comments']
         if mode == 'none':
             return
-        if '\n' not in text and '*/' not in text and self.rng.random() < 0.2:
+        if '\n' not in text and '*/' not in text and self.k['block_comments'] and self.rng.random() < 0.2:
             self.out.append(self.indent() + '/* ' + text + '*/')
             return
         for ln in text.split('\n'):
@@ -237,11 +265,11 @@ class Writer:
         if form == 'colon' or not allow_block:
             self.emit(ctx, self.kw('Note:') + self.sp() + self.lit(text, note=True))
         else:
-            self.emit(ctx, self.kw('Note') + self.sp() + '{')
+            self.emit(ctx, self.kw('Note') + self.sp() + self.br('{', 'note_block'))
             self.depth += 1
             self.emit('note_block', self.lit(text, note=True))
             self.depth -= 1
-            self.emit('note_block', '}')
+            self.emit('note_block', self.br('}', 'note_block'))
 
     def default_lit(self, d):
         if d.kind == 'int':
@@ -273,20 +301,23 @@ class Writer:
         return self.ident(t.text)
 
     def inline_ref(self, doc, r):
-        return (self.kw('ref:') + self.sp() + r.kind + self.sp()
+        return (self.kw('ref:') + self.sp() + (self.fault('lit:refop') or r.kind) + self.sp()
                 + self.table_ref(doc, r.target) + '.' + self.ident(r.col))
 
     def trailing(self, text):
         """am comment written at the end of the element's line (single line only)"""
         if text is None or self.k['comments'] == 'none':
             return ''
-        if self.rng.random() < 0.75 or '*/' in text:
+        if self.rng.random() < 0.75 or '*/' in text or not self.k['block_comments']:
             return self.sp() + '//' + (' ' if self.rng.random() < 0.8 else '') + text
         return self.sp() + '/* ' + text + '*/'
 
     def column(self, doc, c):
         tail = self.place_comment('table_body', c.comment)
-        head = self.ident(c.name) + self.gap('col:name-type') + self.type_text(doc, c.type)
+        if self.fault('lit:coltype') == 'drop':
+            head = self.ident(c.name)
+        else:
+            head = self.ident(c.name) + self.gap('col:name-type') + self.type_text(doc, c.type)
         items = []
         pk_sp = self.k['pk_spelling']
         if pk_sp == 'random':
@@ -349,7 +380,7 @@ class Writer:
         if i.unique:
             items.append(self.kw('unique'))
         if i.type is not None:
-            items.append(self.kw('type:') + self.sp() + self.kw(i.type))
+            items.append(self.kw('type:') + self.sp() + (self.fault('lit:indextype') or self.kw(i.type)))
         if i.note is not None:
             items.append(self.note_setting(i.note))
         if self.k['settings_order'] == 'shuffle':
@@ -370,7 +401,7 @@ class Writer:
             note_pos = self.rng.choice(['settings', 'colon', 'block'])
         sett = []
         if t.header_color:
-            sett.append(self.kw('headercolor:') + self.sp() + t.header_color)
+            sett.append(self.kw('headercolor:') + self.sp() + (self.fault('lit:color') or t.header_color))
         if t.note is not None and note_pos == 'settings':
             sett.append(self.note_setting(t.note))
         if self.k['settings_order'] == 'shuffle':
@@ -407,21 +438,21 @@ class Writer:
                 self.note_body('table_body', t.note)
                 self.k['note_pos'] = save
             else:
-                self.emit('table_body', self.kw('indexes') + self.sp() + '{')
+                self.emit('table_body', self.kw('indexes') + self.sp() + self.br('{', 'indexes'))
                 self.depth += 1
                 for i in t.indexes:
                     self.index(doc, i)
                 self.depth -= 1
-                self.emit('indexes_body', '}')
+                self.emit('indexes_body', self.br('}', 'indexes_body'))
         self.depth -= 1
-        self.emit('table_body', '}')
+        self.emit('table_body', self.br('}', 'table_body'))
 
     def open_brace(self, ctx, head, gapname):
         if self.rng.random() < self.k['brace_newline']:
             self.emit(ctx, head)
-            self.emit('before_brace', '{', own=True)
+            self.emit('before_brace', self.br('{', gapname), own=True)
         else:
-            self.emit(ctx, head + self.gap(gapname) + '{')
+            self.emit(ctx, head + self.gap(gapname) + self.br('{', gapname))
 
     def enum(self, doc, e):
         self.comment_lines('top', e.comment)
@@ -436,7 +467,7 @@ class Writer:
                 text += self.gap('enumitem:before-settings') + self.settings([self.note_setting(it.note)], 'enumitem')
             self.emit('enum_body', text + tail, eol=not tail)
         self.depth -= 1
-        self.emit('enum_body', '}')
+        self.emit('enum_body', self.br('}', 'enum_body'))
 
     def endpoint(self, doc, ti, cols):
         tr = self.table_ref(doc, ti)
@@ -451,12 +482,13 @@ class Writer:
             form = r.form
         elif form == 'random':
             form = self.rng.choice(['short', 'block'])
-        body = self.endpoint(doc, r.t1, r.cols1) + self.sp() + r.kind + self.sp() + self.endpoint(doc, r.t2, r.cols2)
+        body = (self.endpoint(doc, r.t1, r.cols1) + self.sp() + (self.fault('lit:refop') or r.kind) + self.sp()
+                + self.endpoint(doc, r.t2, r.cols2))
         sett = []
         if r.on_update is not None:
-            sett.append(self.kw('update:') + self.sp() + self.kw(r.on_update))
+            sett.append(self.kw('update:') + self.sp() + (self.fault('lit:action') or self.kw(r.on_update)))
         if r.on_delete is not None:
-            sett.append(self.kw('delete:') + self.sp() + self.kw(r.on_delete))
+            sett.append(self.kw('delete:') + self.sp() + (self.fault('lit:action') or self.kw(r.on_delete)))
         if self.k['settings_order'] == 'shuffle':
             self.rng.shuffle(sett)
         if sett:
@@ -471,7 +503,7 @@ class Writer:
             self.depth += 1
             self.emit('ref_block', body + tail, eol=not tail)
             self.depth -= 1
-            self.emit('ref_block', '}')
+            self.emit('ref_block', self.br('}', 'ref_block'))
 
     def group(self, doc, g):
         self.comment_lines('top', g.comment)
@@ -481,7 +513,7 @@ class Writer:
             note_pos = self.rng.choice(['settings', 'colon', 'block'])
         sett = []
         if g.color:
-            sett.append(self.kw('color:') + self.sp() + g.color)
+            sett.append(self.kw('color:') + self.sp() + (self.fault('lit:color') or g.color))
         if g.note is not None and note_pos == 'settings':
             sett.append(self.note_setting(g.note))
         if self.k['settings_order'] == 'shuffle':
@@ -503,7 +535,7 @@ class Writer:
                 self.note_body('group_body', g.note)
                 self.k['note_pos'] = save
         self.depth -= 1
-        self.emit('group_body', '}')
+        self.emit('group_body', self.br('}', 'group_body'))
 
     def project(self, doc, p):
         self.comment_lines('top', p.comment)
@@ -519,14 +551,14 @@ class Writer:
             else:
                 self.note_body('project_body', p.note)
         self.depth -= 1
-        self.emit('project_body', '}')
+        self.emit('project_body', self.br('}', 'project_body'))
 
     def sticky(self, doc, s):
         self.open_brace('top', self.kw('Note') + self.sp() + self.ident(s.name), 'sticky:before-brace')
         self.depth += 1
         self.emit('note_block', self.lit(s.text, note=True))
         self.depth -= 1
-        self.emit('note_block', '}')
+        self.emit('note_block', self.br('}', 'sticky'))
 
     # ------------------------------------------------------------------ document
     def document(self, doc):
@@ -559,7 +591,9 @@ def render(doc, seed=0, knobs=None, inject=None, case_sensitive=()):
     return w.document(doc)
 
 
-def render_with_slots(doc, seed=0, knobs=None, case_sensitive=()):
+def render_with_slots(doc, seed=0, knobs=None, case_sensitive=(), want_writer=False):
     w = Writer(seed, knobs, None, case_sensitive)
     text = w.document(doc)
+    if want_writer:
+        return text, list(w.slots), w
     return text, list(w.slots)
